@@ -190,6 +190,20 @@ def add_op_registers_what_it_returns(ctx):
         found = any(pol and isinstance(g, ast.Call) and call_tail(g) == "has_op" for g, pol in p.guards)
         if not (registered or found):
             bad.append(f"[{p.guard_text()[:90]}] returns {U(p.value)[:30]}")
+    # ... and it is the operand it was given, or the holder's entry under that operand's own name (variables, registers and temporaries are
+    # one node per name): add_op never substitutes another node for an operation - whoever removes or re-types "its" node later would
+    # hit the other users of the shared one
+    par = fi.node.args.args[1].arg
+    other = []
+    for p in paths_of(fi.node):
+        if p.outcome != "return" or p.value is None:
+            continue
+        t = U(p.value)
+        by_name = (f"({par}.get_name())" in t or f"[{par}.get_name()]" in t) and "il_ops_holder" in t
+        if t != par and not by_name:
+            other.append(f"returns {t[:60]} [{p.guard_text()[-80:]}]")
+    ctx.check("add_op hands back the operand it was given, or the entry registered under its name", not other, f"return {par} / return <holder entry named {par}.get_name()>",
+              "; ".join(sorted(set(other))[:2]) or "ok", fn_where(idx, fi))
     ctx.check("add_op returns only operands that are in the holder", n >= 2 and not bad, "every returning path found the operand in the holder or registers it",
               "; ".join(bad[:2]) or f"{n} returning paths ok", fn_where(idx, fi))
 
